@@ -186,6 +186,8 @@ class Impl:
         """a plain function the program binds to `step` / `_user_step`: records (f, model.steps as it sees it, arguments)"""
         def fn(*args, **kw):
             m.frec.append((f, m.steps, tuple(args) + tuple(kw.values())))
+            if f >= 50:
+                raise RuntimeError("boom")  # user code that fails: the count must stand
         return fn
 
     def ball(self):
@@ -235,6 +237,10 @@ class Impl:
                 assert r is None
             except TypeError:
                 out = "err Type"
+            except RuntimeError as e:
+                if "boom" not in str(e):
+                    raise
+                out = "err Runtime"
             self.trace.append(("bstep", i, args, out, list(m.rec), list(m.frec), before, m.steps, dict(st)))
             return (f"{out} log={self.fmt(m.rec)} fn=" + ",".join(f"{f}@{s_}" + ("/" + ".".join(map(str, a)) if a else "")
                                                                    for f, s_, a in m.frec) + f" || {self.ball()}")
@@ -495,13 +501,15 @@ BIND_PATTERNS = [
     # the program re-binds `step` on the instance: a function, then nothing at all (the class's step, uncounted)
     ["bstep 0", "bassign 0 1", "bstep 0", "bstep 0 5", "bdel 0", "bstep 0", "bstep 0 7", "bdel 0", "bstep 0"],
     ["bdel 0", "bstep 0", "bstep 0 3", "bassign 0 2", "bstep 0 4", "buser 0 1", "bstep 0", "bdel 0", "bstep 0 9"],
+    # user code that raises: the call leaves with the exception, the count stands
+    ["bstep 0", "buser 0 50", "bstep 0", "bstep 0 2", "buser 0 1", "bstep 0", "bassign 0 51", "bstep 0"],
 ]
 
 
 def binding_scenarios():
     """every chain of depth <= 2 x {plain construction | `self.step = f` before Model.__init__} x three op patterns"""
     for sh in all_shapes(2):
-        for pre in ("-", "1"):
+        for pre in ("-", "1", "50"):
             for pat in BIND_PATTERNS:
                 yield core.Scenario(["scenario steps", fmt_class(list(sh)), f"bnew 0 {pre}"] + pat, {"exhaustive": True, "binding": True})
 
@@ -510,16 +518,16 @@ def gen_binding_ops(R, L, ncls):
     """1-2 objects whose `step` binding the program plays with, 4-14 ops"""
     nobj = R.choice([1, 1, 2])
     for _ in range(nobj):
-        L.append(f"bnew {R.randrange(ncls)} {R.choice(['-', '-', '-', '1', '2'])}")
+        L.append(f"bnew {R.randrange(ncls)} {R.choice(['-', '-', '-', '1', '2', '50'])}")
     for _ in range(R.randrange(4, 15)):
         i = R.randrange(nobj)
         k = R.random()
         if k < 0.6:
             L.append(" ".join(["bstep", str(i)] + [str(R.randrange(0, 9)) for _ in range(R.choice([0, 0, 1, 1, 2]))]))
         elif k < 0.75:
-            L.append(f"buser {i} {R.randrange(1, 4)}")
+            L.append(f"buser {i} {R.choice([1, 2, 3, 50, 51])}")
         elif k < 0.88:
-            L.append(f"bassign {i} {R.randrange(1, 4)}")
+            L.append(f"bassign {i} {R.choice([1, 2, 3, 50])}")
         else:
             L.append(f"bdel {i}")
 
@@ -725,7 +733,7 @@ def oracle(sc, obs):
                 if frec:
                     bad.append(f"delegate: a program function ran although object {i} has none")
                 bad += expected_chain_ok(st["levels"], rec, tuple(args), out)
-            elif rec or frec != [(target, s0 + 1, tuple(args))] or out != "ok":
+            elif rec or frec != [(target, s0 + 1, tuple(args))] or out != ("err Runtime" if target >= 50 else "ok"):
                 bad.append(f"delegate: step({args}) on object {i} should run the function {target} once with the arguments unchanged; "
                            f"bodies {rec}, functions {frec}, {out}")
             continue
@@ -838,7 +846,7 @@ def tags(sc, obs):
             st = ev[8]
             how = ("rebound" if st["rebound"] else "wrapped") + (
                 "-user-fn" if st["user"] is not None else "-init-fn" if st["pre"] is not None else "-class-chain")
-            yield "bind:call-" + how + (":TypeError" if ev[3] != "ok" else "") + (":args" if ev[2] else "")
+            yield "bind:call-" + how + (":TypeError" if ev[3] == "err Type" else ":RuntimeError" if ev[3] != "ok" else "") + (":args" if ev[2] else "")
         elif ev[0] == "run":
             yield "run:" + str(min(ev[-1][ev[1]][0] - ev[-2][ev[1]][0], 3)) + ("+" if ev[-1][ev[1]][0] - ev[-2][ev[1]][0] >= 3 else "") + "-calls"
 
